@@ -23,8 +23,11 @@ RULE += (
     ' Also: chunks with an empty decoded body, receive timeouts and other OSErrors between segments (every'
     ' single cut followed by one), chunks of 4097..70000 bytes.'
 )
+RULE += (
+    " Also: compressed chunks repeating a block at 5 000..31 000 bytes distance."
+)
 ASSUMPTIONS = ["chunk extensions and trailers are not generated (well-formed bodies of the plain grammar)"]
-GATES = ["partitions_checked", "exhaustive_bodies", "cut:inside-size-digits", "cut:between-size-CR-and-LF",
+GATES = ["long_distance_repeats_compressed", "partitions_checked", "exhaustive_bodies", "cut:inside-size-digits", "cut:between-size-CR-and-LF",
          "cut:before-first-data-byte", "cut:inside-data", "cut:between-data-and-CR",
          "cut:between-terminating-CR-and-LF", "cut:between-chunks", "cut:inside-zero-chunk",
          "enc:chunked", "enc:gzip", "enc:zlib", "enc:deflate", "empty_compressed_body",
@@ -79,7 +82,7 @@ def run_case(ctx, bodies, upper, terminate, how, pad, cuts, bufsize, readpat, ti
         ctx.hit("runs_with_timeouts_between_segments")
     if "E" in sizes:
         ctx.hit("runs_with_oserror_between_segments")
-    params = {"bodies": [b.hex() for b in bodies], "upper": upper, "terminate": terminate, "how": how, "pad": pad,
+    params = {"force": list(refchunk.FORCE) if refchunk.FORCE else None, "bodies": [b.hex() for b in bodies], "upper": upper, "terminate": terminate, "how": how, "pad": pad,
               "cuts": list(cuts), "bufsize": bufsize, "readpat": readpat, "timeouts": list(timeouts)}
     sock = doubles.ScriptedSocket(encoded, sizes, budget=4 * len(encoded) + 4 * len(sizes) + 64)
     got = bytearray()
@@ -189,7 +192,8 @@ def run(ctx):
         big = bytes(rng.getrandbits(8) for _ in range(rng.choice((4097, 4200, 5000, 8193, 20000, 70000))))
         bodies = [bytes(rng.getrandbits(8) for _ in range(rng.randint(1, 30))), big,
                   bytes(rng.getrandbits(8) for _ in range(rng.randint(1, 30)))][rng.randint(0, 1):]
-        how = hows[it % 4] if it % 8 < 4 else None
+        g_ = it * ctx.nworkers + ctx.worker  # position in the enumeration over all workers
+        how = hows[g_ % 4] if g_ % 8 < 4 else None
         upper, term = rng.random() < 0.5, rng.random() < 0.7
         enc, _ = refchunk.encode(bodies, upper, term, how, 0)
         L = len(enc)
@@ -197,6 +201,23 @@ def run(ctx):
         if not run_case(ctx, bodies, upper, term, how, 0, cuts, rng.choice((64, 4096, 4096, 65536)), 3):
             return
         ctx.hit("chunks_over_4096_bytes")
+    # (2b') compressed chunks whose body repeats a random block at a LONG distance (5 000 .. 31 000 bytes: back-references
+    # across most of a 32 KiB window), best compression and full window
+    for it in range(ctx.n(32, 480)):
+        g_ = it * ctx.nworkers + ctx.worker
+        how = hows[1 + g_ % 3]
+        blk = rng.randbytes((5000, 12000, 18000, 24000, 31000)[(g_ // 3) % 5])
+        body = blk * rng.choice((2, 3)) + rng.randbytes(rng.randint(0, 40))
+        refchunk.FORCE = (rng.choice((9, 6)), 15)
+        try:
+            bodies_ = [body] if g_ % 2 else [b"lead" * 3, body]
+            enc, _ = refchunk.encode(bodies_, False, True, how, 0)
+            cuts = tuple(sorted(rng.sample(range(1, len(enc)), rng.randint(0, 3))))
+            if not run_case(ctx, bodies_, False, True, how, 0, cuts, rng.choice((4096, 65536)), 9):
+                return
+        finally:
+            refchunk.FORCE = None
+        ctx.hit("long_distance_repeats_compressed")
     # (2c) thorough only: single chunks of 16 MiB and more (plain, and a highly compressible body under each compression)
     if not ctx.quick and ctx.worker < 4:
         how = hows[ctx.worker % 4]
@@ -234,5 +255,6 @@ def run(ctx):
 
 
 def replay(ctx, p):
+    refchunk.FORCE = tuple(p["force"]) if p.get("force") else None
     run_case(ctx, [bytes.fromhex(b) for b in p["bodies"]], p["upper"], p["terminate"], p["how"], p["pad"],
              tuple(p["cuts"]), p["bufsize"], p["readpat"], tuple(p.get("timeouts", ())))
